@@ -179,6 +179,9 @@ def gen_plan(run_seed: int, k: int, tier: str) -> dict:
     for _ in range(rng.randint(1, 4)):
         op = new_op("setup")
         setup.append(op)
+        if rng.random() < 0.15:
+            # read-only API before the object's first use (printing fills lazy caches)
+            setup.append({"op": "reads", "t": op["id"]})
         if rng.random() < 0.4:
             setup.append(gen_op("setup", op["id"]))
         if rng.random() < 0.5:
@@ -689,8 +692,14 @@ def execute_plan(plan) -> dict:
             if t is None:
                 rec["status"] = "skipped"
                 return rec
-            for i in range(op["n"]):
-                call_raw(t["obj"], op["rule"], f"{op['text']}{i}", 0)
+            # noise, not a scheduling target: runs untraced (300 parses of a large grammar would
+            # otherwise eat the operation's step budget) and is never pre-empted
+            sched.disarm()
+            try:
+                for i in range(op["n"]):
+                    call_raw(t["obj"], op["rule"], f"{op['text']}{i}", 0)
+            finally:
+                sched.arm()
         elif kind == "reads":
             t = objs.get(op["t"])
             if t is None or t["kind"] != "parser":
